@@ -8,7 +8,7 @@ SHORT = {
     "C01": ("`FanoutMany::*` over the whole keyed view; `pubsub::Topic::poll` relational step contract (each subscriber gets exactly the items handed over during the step, late joiners a contiguous run), Ready/Pending exit conditions", "`d90a8b3` early park with an unfinished flush"),
     "C02": ("`Router::start_send` routes to exactly the tagged requestor / leaves the map unchanged; `reqrep::Topic::poll` forces the origin tag, never overwrites a parked reply/request, reply ledger exactly-once in order", "`a10dadf` reply slot overwritten"),
     "C03": ("publisher conservation law `flatten(frames) ++ batch == accepted` for any batch size/interval/clock; `finish` flushes before the QUIC stream is finished; subscriber yields a batch first-to-last once", "`5104c15` batch reversed, `b0e4e71` finish drops buffered frames, `e9c2e6a` interval overflow panic"),
-    "C04": ("id ↔ oneshot pairing under the table lock, tagging, dispatch touches only the addressed entry, replier echoes headers, exactly one reply per request; no lock of the shared halves held while waiting for the reply", "—"),
+    "C04": ("id ↔ oneshot pairing under the table lock, tagging, dispatch touches only the addressed entry, replier echoes headers, exactly one reply per request; once registered, a request waits for nothing outside its time-out", "`923ac9d` request blocked in the send never times out"),
     "C05": ("`MessageCodec::{encode,decode}`, `Frame::*`, batch codec against the wire spec; round-trip, exact consumption, chunking, unbatch∘batch lemmas", "—"),
     "C06": ("every decode path with **no precondition on the bytes**: panic-freedom, input-proportional allocation; `bincode::deserialize_from` carries `requires false`", "`1962811` decode_message_batch panics/over-allocates, `21e9a63` bincode length-prefix allocation"),
     "C07": ("`TopicName::{try_from,create,is_valid,fmt}` against a grammar, regex spec generated from the literal; server inserts/routes only valid names, routes to the channel stored under that name", "`b49133c` multi-byte first char panic"),
@@ -63,11 +63,19 @@ fails with the patch.  None was ever committed to `/repo`; `seedall.py` applies 
 property it breaks, and reverts (`git -C /repo checkout -- .`).
 
 Seeds `-1..-3` (48, all properties except C15) arrived while the checks were being built and were used to strengthen them; seeds
-`-4..-7` (64, all sixteen claimed properties, in three later rounds; the last round was steered away from the central functions)
-were each first run **blind** against the machinery as it stood — `seeded/ROUND2_BLIND.md` records every first contact: 44
-detected, 15 undecided, 5 missed (4 of the first 32, 1 of the last 32).  Every miss was a gap in what the contracts stated (a
-clause nobody had written, a function of an anchor file not listed for the property, a function not under contract); each was
-closed by adding the clause, and attribution was made to follow the anchor files.  Final state (`seeded/RESULTS.md`, last run of
+`-4..-9` (96, all sixteen claimed properties, in four later rounds; the last two rounds were steered away from the central
+functions, towards changes that span two files, defaults, error classification and peers that fail at odd moments)
+were each first run **blind** against the machinery as it stood — `seeded/ROUND2_BLIND.md` records every first contact: 67
+detected, 21 undecided, 8 missed (4 of the first 32, 1 of the next 32, 3 of the last 32).  Every miss was a gap in what the
+contracts stated (a clause nobody had written, a function of an anchor file not listed for the property, a function not under
+contract, a unit the property depends on but did not list — the frame codec for the router properties); each was
+closed by adding the clause or the unit, and attribution was made to follow the anchor files.  One miss of the last round
+(C17-9, a connection-level receive window set in `quic.rs`) is detected only by the end-to-end search of the thorough tier.
+Round 5 also produced defect `923ac9d` of §2.7 (a sub-agent noticed that the unchanged tree already stalls under the load it
+wanted to use for a seed).  Three seeds and five behaviour-preserving changes whose patches touched the lines that fix moved
+were rebased by hand onto it (noted in their `notes.md`) and confirmed again; one early seed, C04-3 (write half kept locked while
+waiting for the reply), no longer breaks C04 on the repaired tree — its demonstration passes — and moved to `benign/F-b9`, and the
+clause that had caught it was removed as stronger than the property (§4 C04).  Final state (`seeded/RESULTS.md`, last run of
 `seedall.py`): **{len(det)} of {len(seeds)} detected, {len(und)} undecided (exit 2), {len(mis)} missed**.
 
 | seed | outcome | failed obligations (first three) or reason |
@@ -88,11 +96,15 @@ closed by adding the clause, and attribution was made to follow the anchor files
     changes = sorted(set(r[0] for r in ben))
     out.append(f"""### 5.2 Behaviour-preserving changes (false-alarm campaign)
 
-`benign/<group>-b1..b4/` holds {len(changes)} changes that keep every property true: eight sub-agents (one per group of anchor files, A–H) each
+`benign/<group>-b1..b8/` holds {len(changes)} changes that keep every property true: eight sub-agents (one per group of anchor files, A–H) each
 made a trivial one (renamed locals, reworded comments/log text), a mild one (reordered independent statements, temporaries,
 `if let` ↔ `match`, flipped conditions), a moderate one (extracted helper, merged branches, reshaped loop) and a bolder
-"no functional change" refactor of the central function, and checked that the workspace builds and the 50 tests pass.
-`benignall.py` applies each and runs the checks of every property anchored in the touched files.  A VIOLATION here is a false
+"no functional change" refactor of the central function, and checked that the workspace builds and the 50 tests pass; a
+second round of eight sub-agents added b5–b8 (idiom modernisation, added diagnostics — doc comments, log lines, debug assertions —, a
+micro-optimisation, housekeeping such as constants, aliases and moved items) and was run blind: no false alarm, one crash of the driver (an index error on a
+macro-expansion span; the driver now turns any internal error into UNDECIDED).
+`benignall.py` applies each and runs the checks of every property anchored in the touched files and of every property one of
+whose units extracts code from a touched file.  A VIOLATION here is a false
 alarm.  Last run: **{nok} OK, {nun} undecided, {nfa} false alarms** in {len(ben)} check runs.
 
 | change | OK | undecided | false alarm |
